@@ -167,6 +167,10 @@ def _wire_obj(w, decl, value, ctx_chunked):
                 if ins.name is not None:
                     types[ins.name] = tref
                 if ins.value is not None:
+                    # a hard-coded value is never None; as an optional field it is still part of the optional tail:
+                    # not written once an earlier optional of this chunk was missing
+                    if ins.optional and st["missing"]:
+                        continue
                     _emit_value(w, tref, lit_value(tref, ins.value), ins, lf, value)
                     continue
                 v = get(value, ins.name)
@@ -462,6 +466,8 @@ def _parse_obj(spec, decl, st, ctx_chunked):
                     out[ins.name] = None
                     if st.rem() > 0:
                         out[ins.name] = _read_value(spec, tref, st, ins, lenvals)
+                    if ins.value is not None:
+                        out[ins.name] = lit_value(tref, ins.value)     # the object always carries the literal
                     continue
                 v = _read_value(spec, tref, st, ins, lenvals)
                 if ins.name is not None:
